@@ -91,12 +91,12 @@ class LinearPaths:
       self._link_duplicated_first(merged, self.segment(segpath[0].segment),
                                    first_reversed, jntag)
     else:
-      self.__link_merged(merged.name, segpath[0].inverted(), first_reversed)
+      self.__link_merged(merged, segpath[0].inverted(), first_reversed, "L")
     if last_redundant:
       self._link_duplicated_last(merged, self.segment(segpath[-1].segment),
                                   last_reversed, jntag)
     else:
-      self.__link_merged(merged.name, segpath[-1], last_reversed)
+      self.__link_merged(merged, segpath[-1], last_reversed, "R")
     idx1 = 1 if first_redundant else 0
     idx2 = -1 if last_redundant else None
     for sn_et in segpath[idx1:idx2]:
@@ -349,7 +349,30 @@ class LinearPaths:
         merged.set(count_tag, count)
     return merged, first_reversed, last_reversed
 
-  def __link_merged(self, merged_name, segment_end, is_reversed):
+  @staticmethod
+  def __move_positions(edge, sid_number, old_length, merged_length, is_reversed,
+                       merged_end_type):
+    """Positions of a GFA2 edge on a segment at one end of a merged path,
+    as positions on the merged segment."""
+    if old_length is None or merged_length is None:
+      raise gfapy.ValueError(
+          "The positions of edge {} cannot be computed, ".format(edge)+
+          "as the length of the merged segment is not known")
+    beg = gfapy.posvalue(edge.get("beg"+sid_number))
+    end = gfapy.posvalue(edge.get("end"+sid_number))
+    if is_reversed:
+      beg, end = old_length - end, old_length - beg
+    if merged_end_type == "R":
+      beg += merged_length - old_length
+      end += merged_length - old_length
+    for fieldname, pos in [("beg"+sid_number, beg), ("end"+sid_number, end)]:
+      if pos == merged_length:
+        pos = gfapy.LastPos(pos)
+      edge.set(fieldname, pos)
+
+  def __link_merged(self, merged, segment_end, is_reversed, merged_end_type):
+    merged_name = merged.name
+    old_length = self.segment(segment_end.segment).length
     to_disconnect = []
     for l in self.segment(segment_end.segment).dovetails_of_end(
                                                  segment_end.end_type):
@@ -361,14 +384,22 @@ class LinearPaths:
       l2 = l.clone()
       on_to_end = (l.to_end == segment_end)
       on_from_end = (l.from_end == segment_end)
+      if l.record_type == "E":
+        sid1_is_from = l._is_sid1_from()
       if on_to_end:
         l2.to_segment = merged_name
         if is_reversed:
           l2.to_orient = gfapy.invert(l2.to_orient)
+        if l.record_type == "E":
+          self.__move_positions(l2, "2" if sid1_is_from else "1", old_length,
+                                merged.length, is_reversed, merged_end_type)
       if on_from_end:
         l2.from_segment = merged_name
         if is_reversed:
           l2.from_orient = gfapy.invert(l2.from_orient)
+        if l.record_type == "E":
+          self.__move_positions(l2, "1" if sid1_is_from else "2", old_length,
+                                merged.length, is_reversed, merged_end_type)
       to_add.append(l2)
     for l in to_disconnect:
       l.disconnect()
